@@ -371,7 +371,7 @@ func ops(f *node) []op {
 
 // `supported` of the Coq model, computed independently (K-compared with the extracted one)
 func (d *docSpec) supported() bool {
-	if d.perms != 0 || len(d.fields) == 0 {
+	if len(d.fields) == 0 {
 		return false
 	}
 	for _, f := range d.fields {
@@ -827,7 +827,7 @@ func (h *runner) doc(d *docSpec, label string) {
 	}
 	// 3. certification / usage rights / flags / DSS / values
 	if o.perms {
-		failS("perms-survive", "catalog /Perms (DocMDP/UR3 signature reference) is still present after removal (the code deletes the key \"Perm\")")
+		failS("perms-survive", "catalog /Perms (DocMDP/UR3 signature reference) is still present after removal")
 	}
 	if o.sf {
 		failS("sigflags-survive", "AcroForm /SigFlags still present")
